@@ -1,6 +1,7 @@
 package ssaexec
 
 import (
+	"time"
 	"fmt"
 	"sync"
 
@@ -24,6 +25,12 @@ type ParallelStats struct {
 	Undecided int
 	Terms    int
 }
+
+// ExploreDeadline, when non-zero, is the wall-clock instant after which no
+// further path is started: the harness is reported as truncated (bound not
+// covered, the check is broken unless a violation was already found), so a
+// change that makes exploration explode ends with a report instead of never.
+var ExploreDeadline time.Time
 
 // ParallelExplore explores all paths of fn with n workers sharing one stack
 // of decision prefixes.
@@ -86,7 +93,8 @@ func ParallelExplore(fn *ssa.Function, n int, mk WorkerFactory, maxPaths int, wa
 				for len(work) == 0 && busy > 0 && firstErr == nil {
 					cond.Wait()
 				}
-				if firstErr != nil || len(work) == 0 || (maxPaths > 0 && rep.Paths >= maxPaths) {
+				if firstErr != nil || len(work) == 0 || (maxPaths > 0 && rep.Paths >= maxPaths) ||
+					(!ExploreDeadline.IsZero() && time.Now().After(ExploreDeadline)) {
 					if len(work) > 0 && firstErr == nil {
 						rep.Truncated = true
 					}
